@@ -69,9 +69,6 @@ pub fn str_get_kernel(string: &Utf8String, index: &i64) -> Option<ZValue> {
 pub fn str_split_at_kernel(string: &Utf8String, index: &i64) -> Option<(Utf8String, Utf8String)> {
     /*@let lang/dynamics/src/impls.rs :: fn str_split_at_branch :: let pair @*/
 }
-pub fn bytes_to_str_kernel(bytes: &ZValue) -> Option<ZValue> {
-    /*@let lang/dynamics/src/impls.rs :: fn bytes_to_str_branch :: let value @*/
-}
 
 // ---- numeric dispatch functions of the interpreter (rule R9: `args: Vec<ZValue>` -> `args: &[ZValue]`) ----
 pub trait AsSliceIdentity<T> { fn as_slice(&self) -> &[T]; }
